@@ -6,16 +6,16 @@
    which files are written.  Durations are integers in units of 0.1 ms (as in module Durations).
    An option vector o is a function from option names (a subset of OptNames) to values.              *)
 EXTENDS Naturals, Integers, Sequences, FiniteSets, TLC
-OptNames == {"n", "m", "s", "a", "e", "d", "R", "u", "M", "r", "c", "w", "L", "q", "O", "o", "j"}
+OptNames == {"n", "m", "s", "a", "e", "d", "R", "u", "M", "r", "c", "w", "f", "L", "q", "O", "o", "j"}
 NoVal == "none"
 Defaults == [n |-> 2000, m |-> 50000, s |-> 3000, a |-> 100, e |-> 50, d |-> FALSE, R |-> FALSE, u |-> NoVal, M |-> -1,
-             r |-> 16000, c |-> 1, w |-> 2, L |-> FALSE, q |-> FALSE, O |-> NoVal, o |-> NoVal, j |-> -1]
+             r |-> 16000, c |-> 1, w |-> 2, f |-> NoVal, L |-> FALSE, q |-> FALSE, O |-> NoVal, o |-> NoVal, j |-> -1]
 Eff(o, k) == IF k \in DOMAIN o THEN o[k] ELSE Defaults[k]
 \* what the API must be given (long names); M = -1 stands for "no max_read"
 Kwargs(o) == [min_dur |-> Eff(o, "n"), max_dur |-> Eff(o, "m"), max_silence |-> Eff(o, "s"), analysis_window |-> Eff(o, "a"),
               energy_threshold |-> Eff(o, "e"), drop_trailing_silence |-> Eff(o, "d"), strict_min_dur |-> Eff(o, "R"),
               use_channel |-> Eff(o, "u"), max_read |-> Eff(o, "M"), sampling_rate |-> Eff(o, "r"), channels |-> Eff(o, "c"),
-              sample_width |-> Eff(o, "w"), large_file |-> Eff(o, "L")]
+              sample_width |-> Eff(o, "w"), audio_format |-> Eff(o, "f"), large_file |-> Eff(o, "L")]
 \* -j without -O: message on stderr, exit status 1, nothing else happens
 Exit(o) == IF "j" \in DOMAIN o /\ "O" \notin DOMAIN o THEN 1 ELSE 0
 Prints(o) == Exit(o) = 0 /\ ~Eff(o, "q")
